@@ -128,7 +128,39 @@ func c02Check(c c02Case, rec *evid.Recorder) *Fail {
 
 // exhaustive operator pairs and triples: a op1 b op2 c (op3 d) with unary and
 // postfix placements, minimal layout.
+// c02Literals: every literal of C07's exhaustive space is a program of the
+// subset, so xjs must accept it (32 literals per program, partitioned over shards).
+func c02Literals(rec *evid.Recorder, report func(c02Case)) {
+	sh, nsh := shard()
+	var args []*ir.Node
+	nb := 0
+	flush := func() {
+		if len(args) == 0 {
+			return
+		}
+		if nb%nsh == sh {
+			tree := ir.N(ir.Program, "", ir.N(ir.ExprStmt, "", ir.N(ir.Call, "", append([]*ir.Node{ir.N(ir.Ident, "print")}, args...)...)))
+			rec.Class("literal-acceptance-programs")
+			report(c02Case{Tree: tree, Srcs: []string{layout.Minimal(tree)}})
+		}
+		nb++
+		args = nil
+	}
+	none := evid.New("scratch")
+	c07EnumPieces(none, func(p ir.Piece) {
+		for _, q := range []string{"\"", "'"} {
+			args = append(args, &ir.Node{K: ir.Str, Quote: q, Pieces: []ir.Piece{p}})
+			if len(args) >= 32 {
+				flush()
+			}
+		}
+	}, func(c07Lit) {})
+	flush()
+	rec.Exhaustive("acceptance of every single-escape string literal (\\xHH, \\uHHHH, \\u{...} sample, simple escapes, line continuations)")
+}
+
 func c02Exhaustive(rec *evid.Recorder, report func(c02Case)) {
+	c02Literals(rec, report)
 	if sh, _ := shard(); sh != 0 {
 		return
 	}
